@@ -11,7 +11,7 @@ import ast
 
 from ..core import rule
 from ..model import AnalysisError
-from ..norm import Norm, expected
+from ..norm import Norm, expected, value_cases
 from ..poly import Poly
 from ..paths import walk_no_nested, Walker, must_on_all_paths
 from ..effects import is_call_to
@@ -50,31 +50,59 @@ def r16_1(ctx):
     ctx.check(len(jt) == len(rets) and len(jt) >= 2, "Stage.der returns directional derivatives only", detail="result is not a jtimes", expected="return jtimes(expr, variables, seeds) on every path",
               found="%d of %d returns" % (len(jt), len(rets)), fi=f)
     full = []
+
+    def elems(x):
+        """flattened entries of a vertcat(...) (or the single expression), local aliases resolved one level"""
+        if isinstance(x, ast.Name):
+            v = sc.reaching(x.id, x)
+            if v is not None:
+                x = v
+        if is_call_to(x, "vertcat"):
+            return list(x.args)
+        return [x]
+
+    def seed_kind(e):
+        """'ode' / 'quad' for <evaluation of the stage's ODE function>['ode'|'quad'] (possibly through a local), else text"""
+        if isinstance(e, ast.Subscript) and isinstance(e.slice, ast.Constant) and e.slice.value in ("ode", "quad", "alg"):
+            base = e.value
+            if isinstance(base, ast.Name):
+                # every definition of the local (through conditional expressions) must be an evaluation of the ODE function
+                evals = {id(c_) for c_, _kw in ode_evals(f)}
+                leaves = [leaf for _cd, leaf in value_cases(sc, base.id)]
+                if leaves and all(id(leaf) in evals for leaf in leaves):
+                    return e.slice.value
+                return ast.unparse(e)
+            if isinstance(base, ast.Call):
+                return e.slice.value
+        if isinstance(e, ast.Starred):
+            return "*"
+        return ast.unparse(e)
     for r in jt:
         c = r.value
         ctx.check(ast.unparse(c.args[0]) == expr, "Stage.der differentiates the given expression", detail="another expression differentiated", expected=expr, found=ast.unparse(c.args[0]), fi=f, node=r)
-        v, s = c.args[1], c.args[2]
-        if is_call_to(v, "vertcat") and is_call_to(s, "vertcat"):
-            full.append((r, v, s))
+        V, S = elems(c.args[1]), elems(c.args[2])
+        pairs = [(ast.unparse(a_) if not isinstance(a_, ast.Starred) else "*", seed_kind(b_)) for a_, b_ in zip(V, S)]
+        general = any(p_[0] == "self.t" for p_ in pairs)
+        okp = len(V) == len(S) and ("self.x", "ode") in pairs and all(p_ in (("self.x", "ode"), ("self.xq", "quad"), ("self.t", "1"), ("*", "*")) for p_ in pairs)
+        ctx.check(okp, "Stage.der (line-role %s) pairs every differentiated variable with its own rate" % ("general" if general else "time-independent"), detail="variables and seeds listed in different orders / seed is not the declared right-hand side",
+                  expected="x <-> ode(..)['ode'], xq <-> ode(..)['quad'], t <-> 1, signals <-> their derivative symbols", found=str(pairs), fi=f, node=r, sample={"pairs": str(pairs)})
+        # quadrature states are states: an expression of them has a time derivative (their declared integrand)
+        ctx.check(("self.xq", "quad") in pairs, "Stage.der (line-role %s) differentiates quadrature states too" % ("general" if general else "time-independent"),
+                  detail="der() of an expression of quadrature states silently treats them as constants (der(q) = 0)", expected="self.xq among the variables, paired with the 'quad' output of the ODE function",
+                  found=str(pairs), fi=f, node=r)
+        if general:
+            full.append((r, c.args[1] if is_call_to(c.args[1], "vertcat") else sc.reaching(c.args[1].id, c.args[1]), c.args[2] if is_call_to(c.args[2], "vertcat") else sc.reaching(c.args[2].id, c.args[2])))
         else:
-            # state-only form: variables self.x, seed = ode value
-            okx = ast.unparse(v) == "self.x" and isinstance(s, ast.Subscript) and isinstance(s.slice, ast.Constant) and s.slice.value == "ode"
-            ctx.check(okx, "Stage.der (time-independent branch) pairs x with the ODE right-hand side", detail="seed is not the declared right-hand side", expected="jtimes(expr, self.x, ode(...)['ode'])",
-                      found=ast.unparse(c)[:100], fi=f, node=r)
-            gs = [(n.key(t), p) for t, p in sc.guards(r)]
+            gs = [(n.key(t), p) for t, p in sc.path_guards(r)]
             # reachable only when expr does not depend on time and has no signals
             ok = any("depends_on(%s,self.t)" % expr in k and p is False for k, p in gs)
             ctx.check(ok, "Stage.der state-only form is used only for time-independent expressions", detail="partial derivative in time dropped", expected="else-branch of `depends_on(expr, self.t) or signals`",
                       found=str(gs), fi=f, node=r)
     ctx.check(len(full) == 1, "Stage.der has one general (time/signal dependent) form", detail="general form", expected="one jtimes with vertcat lists", found=str(len(full)), fi=f)
     for r, v, s in full:
-        ok = len(v.args) == 3 and len(s.args) == 3 and ast.unparse(v.args[0]) == "self.x" and ast.unparse(v.args[1]) == "self.t" and isinstance(v.args[2], ast.Starred) \
-            and isinstance(s.args[0], ast.Subscript) and isinstance(s.args[0].slice, ast.Constant) and s.args[0].slice.value == "ode" and ast.unparse(s.args[1]) == "1" and isinstance(s.args[2], ast.Starred)
-        ctx.check(ok, "Stage.der general form pairs (x, t, signals) with (ode, 1, signal derivatives)", detail="variables and seeds listed in different orders",
-                  expected="vertcat(self.x, self.t, *signals) <-> vertcat(ode['ode'], 1, *signal_derivatives)", found="%s <-> %s" % (ast.unparse(v)[:60], ast.unparse(s)[:80]), fi=f, node=r,
-                  sample={"variables": ast.unparse(v), "seeds": ast.unparse(s)[:120]})
+        ok = v is not None and s is not None and isinstance(v.args[-1], ast.Starred) and isinstance(s.args[-1], ast.Starred)
         if ok:
-            a, b = v.args[2].value, s.args[2].value
+            a, b = v.args[-1].value, s.args[-1].value
             da = sc.reaching(a.id, a) if isinstance(a, ast.Name) else a
             db = sc.reaching(b.id, b) if isinstance(b, ast.Name) else b
             okp = isinstance(da, ast.ListComp) and isinstance(db, ast.ListComp) and len(da.generators) == 1 and len(db.generators) == 1
@@ -108,6 +136,11 @@ def r16_2(ctx):
     body = f.node.body
     idx = [i for i, st in enumerate(body) if is_guard(st)]
     first_ret = min([i for i, st in enumerate(body) if any(isinstance(x, ast.Return) for x in ast.walk(st))] or [len(body)])
+    def is_zguard(st):
+        return isinstance(st, ast.If) and ast.unparse(st.test).replace(" ", "") == "depends_on(%s,self.z)" % expr and any(isinstance(x, ast.Raise) for x in st.body)
+    zidx = [i for i, st in enumerate(body) if is_zguard(st)]
+    ctx.check(bool(zidx) and zidx[0] < first_ret, "Stage.der rejects expressions depending on algebraic variables", detail="algebraic variable treated as constant in time (der(z) = 0)",
+              expected="top-level `if depends_on(expr, self.z): raise` before any return", found="guard at statement %s, first return in statement %d" % (zidx, first_ret), fi=f)
     ctx.check(bool(idx) and idx[0] < first_ret, "Stage.der rejects expressions depending on controls on every path", detail="control treated as constant in time on some path",
               expected="top-level `if depends_on(expr, self.u): raise` before any return", found="guard at statement %s, first return in statement %d" % (idx, first_ret), fi=f)
     for cname, fld, cmp in (("AbstractSignal", "order", "self.derivative is None"),):
